@@ -15,7 +15,9 @@ def sh(cmd, cwd, timeout=1800):
     return p.returncode, p.stdout
 meta = json.load(open(os.path.join(wt, "SEED/meta.json")))
 patch = os.path.join(wt, "SEED/patch.diff")
-demo = meta["demo_cmd"]
+import re
+demo = re.split(r"\s{2,}\(", meta["demo_cmd"])[0].strip()
+if os.environ.get("DEMO_CMD"): demo = os.environ["DEMO_CMD"]
 res = {"property": pid}
 # state: change applied. 1. demo fails
 rc1, o1 = sh(demo, wt); res["demo_with_change_rc"] = rc1
